@@ -776,6 +776,12 @@ bool library_own_disconnect(const ref::Packet& p) {
     return false;
 }
 
+// ... or without its reason string, which the library drops when the packet would exceed a small Maximum Packet Size of the broker
+bool library_own_disconnect(const ref::Packet& p, const ConnRec& c) {
+    if (library_own_disconnect(p)) return true;
+    return p.type == ref::DISCONNECT && (p.rc == 0x80 || p.rc == 0x81 || p.rc == 0x82) && p.props.empty() && c.caps.maximum_packet_size && *c.caps.maximum_packet_size < 64;
+}
+
 // ------------------------------------------------------------------------------------------------ C09
 void mon_disconnect(const Run& run, const Ix&, Verdicts& v, vu::Result& res) {
     const History& h = run.w->h;
@@ -818,7 +824,7 @@ void mon_disconnect(const Run& run, const Ix&, Verdicts& v, vu::Result& res) {
                 for (auto* k : pk) if (k->dec.status == ref::Status::ok && k->dec.pkt.type == ref::DISCONNECT) has = true;
                 if (!has) { v.add("C09", "C09:packet-ahead-of-disconnect", "connection " + std::to_string(c.id) + ": " + (pk.empty() ? std::string("bytes") : std::string(ref::type_name(pk[0]->dec.pkt.type))) + " written after async_disconnect was initiated, ahead of the DISCONNECT"); continue; }
                 if (pk.size() != 1) v.add("C09", "C09:disconnect-not-alone", "connection " + std::to_string(c.id) + ": DISCONNECT batched with " + std::to_string(pk.size() - 1) + " other packet(s)");
-                else if (!is_expected_disconnect(pk[0]->dec.pkt, c) && library_own_disconnect(pk[0]->dec.pkt) && pk[0]->dec.pkt.rc != d.disc_rc) {
+                else if (!is_expected_disconnect(pk[0]->dec.pkt, c) && library_own_disconnect(pk[0]->dec.pkt, c) && pk[0]->dec.pkt.rc != d.disc_rc) {
                     // a DISCONNECT the library had decided on itself (failed re-authentication, malformed packet, no reply for 20 s)
                     // and that was queued ahead of the application's: not this operation's packet
                     res.count("library_own_disconnects_ahead_of_the_call");
@@ -842,7 +848,7 @@ void mon_disconnect(const Run& run, const Ix&, Verdicts& v, vu::Result& res) {
                 // the library ended this connection with a DISCONNECT of its own (failed re-authentication, no reply for 20 s, ...):
                 // nothing may follow that packet, so the application's DISCONNECT had no place on it
                 bool own = false;
-                for (auto& k : h.cpkts) if (k.conn == c.id && k.dec.status == ref::Status::ok && k.dec.pkt.type == ref::DISCONNECT && library_own_disconnect(k.dec.pkt) && k.dec.pkt.rc != d.disc_rc) own = true;
+                for (auto& k : h.cpkts) if (k.conn == c.id && k.dec.status == ref::Status::ok && k.dec.pkt.type == ref::DISCONNECT && library_own_disconnect(k.dec.pkt, c) && k.dec.pkt.rc != d.disc_rc) own = true;
                 if (own) { res.count("connections_ended_by_library_own_disconnect"); continue; }
                 v.add("C09", "C09:disconnect-never-written", op_str(d) + ": completed without a DISCONNECT on the wire although connection " + std::to_string(c.id) + " was established at " + std::to_string(c.t_established / 1e9) + " s and healthy");
                 break;
